@@ -372,11 +372,12 @@ func (q *queueLimitMPSC) Pop()""", 1),
  """	n.aliases.Store(alias, p)
 	return nil""", 1),
 ("C06", "m-unregister-events-not-deleted", "node/node.go",
- """		ev := gen.Event{Name: k.(gen.Atom), Node: p.node.name}
-		n.events.Delete(ev)
-		n.RouteTerminateEvent(ev, reason)""",
- """		ev := gen.Event{Name: k.(gen.Atom), Node: p.node.name}
-		n.RouteTerminateEvent(ev, reason)""", 1),
+ """	p.events.Range(func(k, _ any) bool {
+		n.events.Delete(gen.Event{Name: k.(gen.Atom), Node: p.node.name})
+		return true
+	})
+""",
+ """""", 1),
 ("C06", "m-makeref-32bit", "node/core.go",
  """	ref.ID[0] = id
 """,
@@ -394,16 +395,7 @@ func (q *queueLimitMPSC) Pop()""", 1),
 		return gen.ErrTaken
 	}""", 1),
 # ---------------- C07
-("C07", "m-wait-no-retry", "node/process.go",
- """			if lib.Trace() {
-				p.log.Trace("got late response on request with ref %s (exp %s). dropped", r.ref, ref)
-			}
-			goto retry
-		}""",
- """			if lib.Trace() {
-				p.log.Trace("got late response on request with ref %s (exp %s). dropped", r.ref, ref)
-			}
-		}""", 1),
+
 ("C07", "m-response-blocking-send", "node/core.go",
  """	select {
 	case p.response <- response{ref: options.Ref, message: message}:
@@ -464,9 +456,7 @@ func (p *process) CallProcessID(""", 1),
  """		n.RouteSendExit(p.parent, p.pid, gen.TerminateReasonShutdown)""",
  """		n.RouteSendExit(n.corePID, p.pid, gen.TerminateReasonShutdown)""", 1),
 # ---------------- C11
-("C11", "m-decoders-uint16-registered-as-uint32", "net/edf/init.go",
- """	decoders.Store(edtUint16, decUint16)""",
- """	decoders.Store(edtUint16, decUint32)""", 1),
+
 ("C11", "m-writeatom-threshold-256", "net/edf/encode.go",
  """			// atom cache id MUST be > 255, otherwise encode as a regular atom
 			if id > 255 {""",
@@ -494,58 +484,8 @@ func (p *process) CallProcessID(""", 1),
 
 	return c.send(buf, order, options.Compression)""", 1),
 ("C12", "m-reader-requestpid-offset", "net/proto/connection.go",
- """			msg, tail, err := edf.Decode(buf.B[49:], c.decodeOptions)
-			if releaseBuffer {
-				lib.ReleaseBuffer(buf)
-			}
-
-			if err != nil {
-				c.log.Error("unable to decode received message: %s", err)
-				continue
-			}
-
-			if len(tail) > 0 {
-				c.log.Warning("message has extra bytes: %#v", tail)
-			}
-
-			from := gen.PID{
-				Node:     c.peer,
-				ID:       idFrom,
-				Creation: c.peer_creation,
-			}
-			to := gen.PID{
-				Node:     c.core.Name(),
-				ID:       idTO,
-				Creation: c.core.Creation(),
-			}
-			opts := gen.MessageOptions{
-				Ref:      ref,""",
- """			msg, tail, err := edf.Decode(buf.B[48:], c.decodeOptions)
-			if releaseBuffer {
-				lib.ReleaseBuffer(buf)
-			}
-
-			if err != nil {
-				c.log.Error("unable to decode received message: %s", err)
-				continue
-			}
-
-			if len(tail) > 0 {
-				c.log.Warning("message has extra bytes: %#v", tail)
-			}
-
-			from := gen.PID{
-				Node:     c.peer,
-				ID:       idFrom,
-				Creation: c.peer_creation,
-			}
-			to := gen.PID{
-				Node:     c.core.Name(),
-				ID:       idTO,
-				Creation: c.core.Creation(),
-			}
-			opts := gen.MessageOptions{
-				Ref:      ref,""", 1),
+ """			msg, tail, err := edf.Decode(buf.B[49:], c.decodeOptions)""",
+ """			msg, tail, err := edf.Decode(buf.B[48:], c.decodeOptions)""", 2),
 ("C12", "m-ack-to-wrong-party", "net/proto/connection.go",
  """			opts.Ref.ID[0] = importantRef
 			c.SendResponseError(to, from, opts, err)""",
@@ -603,26 +543,16 @@ func (p *process) CallProcessID(""", 1),
 			qN = (order + recvN) % recvNQ
 		}""", 1),
 ("C13", "m-sendresponse-order-zero", "net/proto/connection.go",
- """	order := protoOrder(from.ID)
-	orderPeer := protoOrder(to.ID)
-	if options.KeepNetworkOrder == false {
-		order = uint8(0)
-		orderPeer = uint8(0)
+ """func (c *connection) SendResponse(from gen.PID, to gen.PID, options gen.MessageOptions, response any) error {
+	if to.Creation != c.peer_creation {
+		return gen.ErrProcessIncarnation
 	}
-
-	buf := lib.TakeBuffer()
-	// 8 (header) + 8 (process id from) + 1 priority + 8 (process id to) + 24 (ref)
-""",
- """	order := uint8(0)
-	orderPeer := protoOrder(to.ID)
-	if options.KeepNetworkOrder == false {
-		order = uint8(0)
-		orderPeer = uint8(0)
+	order := protoOrder(from.ID)""",
+ """func (c *connection) SendResponse(from gen.PID, to gen.PID, options gen.MessageOptions, response any) error {
+	if to.Creation != c.peer_creation {
+		return gen.ErrProcessIncarnation
 	}
-
-	buf := lib.TakeBuffer()
-	// 8 (header) + 8 (process id from) + 1 priority + 8 (process id to) + 24 (ref)
-""", 1),
+	order := uint8(0)""", 1),
 ("C13", "m-worker-started-without-lock", "net/proto/connection.go",
  """		queue.Push(buf)
 		if queue.Lock() {
